@@ -91,6 +91,18 @@ def check(case, rec):
         with open(path2, "rb") as f2, open(path, "rb") as f1:
             if f2.read() != f1.read():
                 raise Violation("save(load(save(x))) differs from save(x) byte-wise", sig="save-load-save not stable")
+        # ... and once more with the loaded arrays handed over in ANOTHER key order (a recoded / re-sorted dict whose
+        # values are still the views of the first file's mapping)
+        if len(entries) >= 2:
+            shuffled = dict(reversed(list(entries.items())))
+            with libcall("IndxIO.save(the loaded parts, keys in another order)"):
+                with open(path2, "wb") as f2:
+                    IndxIO.save(f2, shuffled, common, numpy.dtype(numpy.uint32))
+            with open(path2, "rb") as f2:
+                with libcall("IndxIO.load(re-saved file)"):
+                    again = IndxIO.load(f2)
+                compare_loaded(case, again, "load(save(reordered load(save(x))))")
+                del again
         shape = index_shape(case)
         with libcall("iindex(loaded parts)"):
             rebuilt = iindex({k: numpy.array(v) for k, v in entries.items()}, common, shape)
